@@ -13,7 +13,12 @@ CONFIG = dict(
                "The path to the cluster is modelled too: App.UpdateNodeState hands each state to the provider exactly once and ignores "
                "its error, and for every fault script of the provider the states the cluster is shown are an order-preserving selection "
                "of the node's own sequence (so still non-decreasing), refused ones are lost for good (never retried or repeated), and the "
-               "monitor accepts the model's trace under every fault script. The model is tied to the Go code on every run: the real "
+               "monitor accepts the model's trace under every fault script. The node's service list is inside the model as well "
+               "(hostedOf = App.FilterSelfServices + NodeCtrl.makeServices): for every list of configured / unconfigured names and every "
+               "ServiceInfo (type, Frontend flag, client addresses) the tracked services are exactly the configured names in order, "
+               "independent of the attributes, each reachable one is probed, and the retire / retired / exit guards hold for every "
+               "configured name, frontend or backend (retire_guard_cfg, retired_waits_for_every_configured, exit_waits_for_every_configured). "
+               "The model is tied to the Go code on every run: the real "
                "NodeCtrl.Start + AdminService + node.admin API entries are driven through real ctrl.cmd / ctrl.servicecmd requests with "
                "scripted hosted services (raw actors and real NodeServices using node/builtin/ctrlcmd.go and app.NotifyServiceRetired), "
                "and the two observation streams are compared op by op.",
@@ -32,6 +37,10 @@ CONFIG = dict(
                        "cluster_view_append", "model_passes_monitor_lossy", "monitor_sequence_clause_no_loss",
                        "monitor_flags_stale_retry", "failed_stop_is_final", "exit_without_retire",
                        "unknown_service_ignored", "web_retire_same", "web_exit_same", "model_passes_monitor",
+                       "hosted_ignores_attributes", "hosted_length", "every_configured_service_hosted", "unconfigured_not_hosted",
+                       "probe_asks_every_hosted", "retire_guard_cfg", "retired_waits_for_every_configured",
+                       "exit_waits_for_every_configured", "monitor_flags_unprobed_service",
+                       "monitor_flags_retire_without_frontend_support",
                        "d3_state_regression", "d3_stopnode_twice"],
     harness_pkg="./c12",
     mode="diff",
@@ -44,16 +53,16 @@ CONFIG = dict(
     },
     trivial=r"^(bad-op|r=(refused|none|-|ack:none|info) pub= upd= lost= stop=0 sent= st=working)$",
     rule="cases generated from one PRNG (VERIF_SEED): hosted service sets of size 0-4 (scripted raw actors whose support answer is an "
-         "explicit op, real NodeServices answering ok / no / "" (listener ignoring queryretire) / without listener, services unresolvable at start) x node service list read by the real App.FilterSelfServices from a generated config dir with unconfigured names first/middle/last x StopNode regime of the recording INodeApp (completion later through an op / inside the call with true / with false) x provider latency (the real App.UpdateNodeState with a stub cluster provider whose k-th update takes 0-500 ms of virtual time: none / random / first slow then fast) x provider faults (reset pf=: the k-th UpdateClusterState returns an error: the first / a random subset / all; in such cases the guided stream lets 40 s pass before and after the exit so that anything the node deferred fires) x histories of up to 14 ops over "
+         "explicit op, real NodeServices answering ok / no / "" (listener ignoring queryretire) / without listener, services unresolvable at start) x node service list read by the real App.FilterSelfServices from a generated config dir with unconfigured names first/middle/last x services-table attributes of each hosted service (reset lst= letters: P backend / F frontend=gate with tcp client address / W frontend with ws address / G frontend flag alone / T another service type / A backend with a client address; a third of the cases with n>0 redraw half of the entries, so frontends next to backends are hosted on every run; the model computes the hosted set from the same list) x StopNode regime of the recording INodeApp (completion later through an op / inside the call with true / with false) x provider latency (the real App.UpdateNodeState with a stub cluster provider whose k-th update takes 0-500 ms of virtual time: none / random / first slow then fast) x provider faults (reset pf=: the k-th UpdateClusterState returns an error: the first / a random subset / all; in such cases the guided stream lets 40 s pass before and after the exit so that anything the node deferred fires) x histories of up to 14 ops over "
          "{stat, retire, exit, web_retire, web_exit, web_nodes, unknown commands, support answer ok/other by service i, s_i leaving / rejoining the node's member record in the real cluster directory behind the real App.GetService (unresolvable at retire time), the directory reflecting the published node state back (at once / on a reflect op; retire repeated after the reflection), retired by "
          "service i / unknown name / out-of-range index, other service commands, StopNode completion true/false, 40 s time-out}; two "
          "thirds of the cases follow the intended life cycle with random insertions, omissions and repetitions (so that exiting/exited "
          "are reached often), one third is uniformly random; thorough adds every history of length 6 over a 7-letter alphabet on two "
-         "scripted services, and every history of length 5 over {retire, exit, ack, retired, stopdone, tick, web_retire} with the first / the second and fourth / every publication refused. A case is non-trivial when something other than a refusal in state working was observed; "
+         "scripted services, every history of length 3-4 on a frontend next to a backend (lst=FP, lst=TMG), and every history of length 5 over {retire, exit, ack, retired, stopdone, tick, web_retire} with the first / the second and fourth / every publication refused. A case is non-trivial when something other than a refusal in state working was observed; "
          "distinct = distinct (op, observation) pairs",
     trusted_base=[
         "Lean 4.33.0 kernel; axioms of every property theorem audited on each run (allowed: propext, Classical.choice, Quot.sound)",
-        "hand-written model lean/Cell2v/Model/NodeCtrl.lean tied to the Go code by the differential run of this check (harness/c12 + modeld_c12)",
+        "hand-written model lean/Cell2v/Model/NodeCtrl.lean (incl. hostedOf: the service list as FilterSelfServices + makeServices read it) tied to the Go code by the differential run of this check (harness/c12 + modeld_c12)",
         "property monitor lean/Cell2v/Spec/C12.lean (executed on implementation observations; proved never to flag the model)",
         "go1.26 testing/synctest virtual clock; proto.actor local delivery (each message once, per-sender order)",
         "harness canonicalisation: replies collapsed to ok / refused / info; sent commands sorted; no texts, times or pids compared",
@@ -64,7 +73,7 @@ CONFIG = dict(
         "only the order in which publications reach the provider is observed, not their latency (an ordered asynchronous publisher would not be flagged)",
         "the cluster provider is a stub that follows a generated fault script (accept / return an error, after a latency); a refused publication is observed as `lost`. The shipped etcd provider (which currently never returns an error) is not executed; a nil provider (App.UpdateNodeState returns at once) is not driven",
         "deferred work of the node is only seen if it fires within the 40 s steps of virtual time the generator inserts (op tick) before the case ends",
-        "hosted service names are distinct; the node configuration does not change while the node runs",
+        "hosted service names are distinct; the node configuration does not change while the node runs; the services-table attributes are driven through a real App configured from generated yaml (6 attribute combinations), the kinds behind the names are scripted",
         "the retire fan-out is best effort in the code (a service GetService cannot resolve at that moment is skipped): modelled as such, theorem retire_guard is conditional on resolvability",
         "a service 'declares support' by answering the controller's queryretire with exactly \"ok\" before the request times out (30 s)",
     ],
